@@ -20,7 +20,9 @@
     property is a theorem about the code the interpreter actually runs.
     What is NOT proved as a theorem: that [Gen.gen_program] (hence the real generator) passes the
     validator for every program ([C01_full_statement] for all programs at once); the run of each
-    program is also compared with [Sem] and [Machine] ([Corr.check_c01]). DATA/READ are not modelled. *)
+    program is also compared with [Sem] and [Machine] ([Corr.check_c01]). DATA and READ are part of
+    the models (the DATA statements of the main program run first, then the implicit declarations:
+    [Sem.exec_main]); their code is covered by the validator ([ReadData.data_correct], [read_correct]). *)
 From Coq Require Import List ZArith Bool Floats.SpecFloat.
 From RB Require Import Generated.Tables Val.Variant Val.Arith2 Lang.Ast Lang.Sem Lang.NumText
                        VM.Instr VM.Gen VM.Machine VM.GenProofs VM.Loops VM.Validate VM.ValidateProofs VM.Corr RT.Printer.
@@ -31,8 +33,7 @@ Local Open Scope nat_scope.
 Definition C01_full_statement : Prop :=
   forall (dims : list (name * pos)) (p : program) (fuel : nat),
     let c := resolve (code (gen_program dims p)) in
-    let st := mk_state (map (fun d => (fst d, default_of (snd (fst d)))) dims) io0 in
-    match exec_program num_text is_negative fuel p st with
+    match exec_main num_text is_negative fuel dims p with
     | Done st' => exists n s', run num_text is_negative n c m0 = MHalted s' /\ mvars s' = vars st' /\ of_mio (mscreen s') = screen st'
     | Failed x q st' => exists n s', run num_text is_negative n c m0 = MError x q s' /\ of_mio (mscreen s') = screen st'
     | StepZero q st' => exists n s', run num_text is_negative n c m0 = MStepZero q s' /\ of_mio (mscreen s') = screen st'
@@ -100,7 +101,7 @@ Proof. exact (check_stmt_sound num_text is_negative). Qed.
 (** whole programs: any instruction list accepted by the validator implements the program *)
 Theorem C01_validated_program : forall k dims p code, check_program k dims p code = true ->
   forall fuel,
-  match exec_program num_text is_negative fuel p (mk_state (init_env dims) io0) with
+  match exec_main num_text is_negative fuel dims p with
   | Done st' => exists n s', (forall m, n <= m -> run num_text is_negative m code m0 = MHalted s') /\
                              mvars s' = vars st' /\ of_mio (mscreen s') = screen st'
   | Failed x q st' => exists n s', (forall m, n <= m -> run num_text is_negative m code m0 = MError x q s') /\ of_mio (mscreen s') = screen st'
